@@ -7,23 +7,23 @@ HOOK_COMMITS = subprocess.run(["git", "-C", "/repo", "log", "--format=%H %s", "-
 SIM = "deterministic simulation: seeded history/schedule/fault search with shadow-store and snapshot oracles (rsim)"
 checks = {
  "C01": ("exploration", "ST-HIST: seeded single-client histories over all configurations, shadow store compared after every step", "§3 C01", "seeded single-client history simulation + shadow store"),
- "C02": ("exploration", "MT-SCHED: seeded schedules (random/sticky/PCT/targeted, spurious weak-CAS) of 2-4 real threads under the baton scheduler at atomic-access granularity; per-step shadow comparison, address checks", "§3 C02", "deterministic scheduler simulation (seeded interleavings + spurious CAS) with per-step shadow-store oracle"),
+ "C02": ("exploration", "MT-SCHED: seeded schedules (random / sticky / PCT / targeted / stall-before-CAS / victim-stall, spurious weak-CAS) of 2-4 real threads under the baton scheduler at atomic-access granularity, one third of them recycle-heavy runs on a nearly full arena; per-step shadow comparison, address checks", "§3 C02", "deterministic scheduler simulation (seeded interleavings + spurious CAS) with per-step shadow-store oracle"),
  "C03": ("exploration", "ST-HIST engineered for cursor residues and typed slow-path requests; per-call layout predicate", "§3 C03", "seeded single-client history simulation + per-call layout predicate"),
- "C04": ("exploration", "ST-HIST with boundary-dense sizes in two build profiles (release, overflow-checked); error atomicity via snapshots; panics / out-of-arena accesses intercepted by the hook", "§3 C04", "seeded history simulation with boundary-dense inputs, two build profiles, hook-level out-of-arena interception"),
- "C05": ("exploration", "FILE-HIST: histories cut by close+reopen in 4 modes x 3 capacity choices with a durable model carried across restarts", "§3 C05", "seeded history simulation with restart (close/reopen) faults + durable reference model"),
+ "C04": ("exploration", "ST-HIST with boundary-dense sizes in two build profiles (release, overflow-checked), maximum_retries 0..=5, two 4 GiB arenas with the cursor at their end per batch; error atomicity via snapshots; panics / out-of-arena accesses intercepted by the hook", "§3 C04", "seeded history simulation with boundary-dense inputs, two build profiles, hook-level out-of-arena interception"),
+ "C05": ("exploration", "FILE-HIST: histories cut by close+reopen in 4 modes x 4 capacity choices (same, larger, absent, smaller but not below the cursor) with a durable model carried across restarts; the file itself is compared at the end of every copy-on-write / read-only session", "§3 C05", "seeded history simulation with restart (close/reopen) faults + durable reference model"),
  "C07": ("exploration", "MT-SCHED with busy-wait parking and bounded-progress verdicts V1-V3 under a fairness rule", "§3 C07", "deterministic scheduler simulation with busy-wait detector and bounded-progress verdicts"),
  "C08": ("exploration", "ST-HIST / FILE-HIST where every owner dirties its buffer before release; all-zero at return", "§3 C08", "seeded single-client history simulation (dirty-then-release) "),
  "C10": ("exploration", "ST-HIST with min-segment changes and discard; snapshot well-formedness + policy oracle from the pre-call snapshot", "§3 C10", "seeded single-client history simulation + free-list snapshot invariants and policy oracle"),
  "C12": ("exploration", "MT-SCHED incl. clone/drop/owned hand-over and teardown inside the simulation; FastTrack-style vector clocks with release sequences from the orderings the code passes", "§3 C12", "deterministic scheduler simulation + vector-clock happens-before checker over the recorded orderings"),
- "C13": ("exploration", "ST-HIST over clone/alloc/to-owned/detach/drop orders (even runs) and MT-SCHED over clone/drop/owned interleavings with teardown inside the simulation (odd runs)", "§3 C13", "seeded history + scheduler simulation with release-once accounting, refs and teardown-callback oracles"),
+ "C13": ("exploration", "ST-HIST over clone/alloc/to-owned/detach/drop orders (even runs) and MT-SCHED over clone/drop/owned interleavings with teardown inside the simulation (odd runs); every second worker in the build profile with debug assertions", "§3 C13", "seeded history + scheduler simulation with release-once accounting, refs and teardown-callback oracles"),
  "C16": ("exploration", "CONFIG sweep (reserved 0..=4096 exhaustively x unify x 3 backends x 2 flavours x capacities around the prefix) + ST-HIST per-step layout oracles + the same history on Vec / anon / file arenas side by side with byte-identical memory()", "§3 C16", "seeded single-client history simulation + layout oracles"),
  "C17": ("exploration", "ST-HIST with boundary-dense rewind positions vs an i128 reference clamp; clear() checked in place and differentially: cleared arena vs freshly constructed arena under the same subsequent history", "§3 C17", "seeded single-client history simulation + reference clamp"),
- "C18": ("exploration", "TRUNC: unsync histories with truncate(n) on 3 backends; before/after snapshots, later allocations", "§3 C18", "seeded single-client history simulation with backing-store change (truncate) as a generated fault"),
+ "C18": ("exploration", "TRUNC: unsync histories with truncate(n) on 3 backends incl. copy-on-write and read-only sessions and, in a quarter of the runs, with clones / owned handles alive; before/after snapshots, file bytes, later allocations", "§3 C18", "seeded single-client history simulation with backing-store change (truncate) as a generated fault"),
  "C20": ("exploration", "ST-HIST with discard_freelist / increase_discarded / set_minimum_segment_size anywhere; snapshot-based accounting", "§3 C20", "seeded single-client history simulation + accounting oracle"),
 }
 pending = {}
-checks["C06"] = ("fault_enumeration", "CRASH: every atomic step of every operation of a file-backed history is a crash point (all of them per history in the thorough tier, every third plus operation boundaries in the quick tier); image written to a fresh file and opened with the real map_mut; post-crash workload under a per-call step budget", "§3 C06", "crash-point enumeration at atomic-step granularity + reopen + post-crash workload (deterministic simulation)")
-checks["C09"] = ("fault_enumeration", "CORRUPT: per base file one identification byte x all 256 values / every truncation length / garbage files, each x 4 open variants x 3 capacity choices x expected freelist/magic right or wrong; read-only sessions of mutating safe calls; expected outcome computed from the statement, refused opens must leave the file bytes unchanged", "§3 C09", "stored-byte fault enumeration on arena files + read-only session simulation")
+checks["C06"] = ("fault_enumeration", "CRASH: every atomic step of every operation of a file-backed history is a crash point (all of them per history in the thorough tier, every third plus operation boundaries in the quick tier); image written to a fresh file and opened with the real map_mut; histories include truncate and close+reopen (in a copy-on-write / read-only session the crash image is the file); post-crash workload under a per-call step budget", "§3 C06", "crash-point enumeration at atomic-step granularity + reopen + post-crash workload (deterministic simulation)")
+checks["C09"] = ("fault_enumeration", "CORRUPT: per base file one identification byte x all 256 values / every truncation length / garbage files, each x 4 open variants x 3 capacity choices x expected freelist/magic right or wrong; read-only sessions of mutating safe calls; a quarter of the base files mapped at offset 4096; every second worker in the overflow-checked build profile; expected outcome computed from the statement, refused opens must leave the file bytes unchanged", "§3 C09", "stored-byte fault enumeration on arena files + read-only session simulation")
 checks["C11"] = ("exploration", "DIFF: one seeded operation sequence over the whole single-thread-usable trait surface executed in lock-step on sync::Arena (with spurious weak-CAS failures) and unsync::Arena as the executable reference model; equal observation tuples after every step", "§3 C11", "differential simulation against the single-threaded arena as executable reference model")
 na = {
  "C14": "pure function of the call arguments and one privately owned (offset, capacity, len) triple: no schedule, fault, crash point or shared history enters it, so deterministic simulation with fault injection has nothing to decide (DESIGN.md §4)",
